@@ -830,10 +830,15 @@ class NN:
         from .rules import inline_new_helpers, lift_ite
         from .ssa import leaves
         d0 = strip_all(d)
-        if not (is_call(d0) and head(strip(d0[1])) == "glob" and strip(d0[1])[1] in self.P.functions):
-            return [(d, guards)]
-        inl = strip_all(inline_new_helpers(self.r, d0))
-        if inl == d0:
+        if head(d0) == "ite":
+            inl = d0          # already read through (the helper call was spliced into the summary)
+        else:
+            if not (is_call(d0) and head(strip(d0[1])) == "glob" and strip(d0[1])[1] in self.P.functions):
+                return [(d, guards)]
+            inl = strip_all(inline_new_helpers(self.r, d0))
+            if inl == d0:
+                return [(d, guards)]
+        if not any(is_const(strip(leaf), None) for _, leaf in leaves(lift_ite(inl))):
             return [(d, guards)]
 
         def none_test(g, pol):
